@@ -43,7 +43,7 @@ Definition ok_C02 (sc : scenario) (q : rec) : bool :=
   let st := q_st q in let st' := q_st' q in let a := q_a q in let r := q_r q in
   let t := trow sc st a in
   implb (negb (is_noop a) && negb (h_reach t && h_disc t))
-        (negb (r_success r) && state_eqb st' st && r_conn r)
+        (negb (r_success r) && state_eqb st' st)
   && implb (is_remote a && r_success r) (has_remote_perm sc st a)
   && implb (is_exploit a && r_success r) (traffic_permitted sc st (a_tgt a) (a_srv a))
   && implb (match a_kind a with KSubScan | KProcScan | KPrivesc => r_success r | _ => false end)
@@ -58,7 +58,8 @@ Definition inv3b (sc : scenario) (st : state) : bool :=
     && implb (h_comp (row sc st x)) (h_disc (row sc st x))
     && implb (h_disc (row sc st x)) (h_reach (row sc st x))).
 
-Definition ok_C03 (sc : scenario) (q : rec) : bool :=
+(* the part of C03 that constrains the STATE (what the property is about) *)
+Definition ok_C03_state (sc : scenario) (q : rec) : bool :=
   let st := q_st q in let st' := q_st' q in let a := q_a q in let r := q_r q in
   implb (inv3b sc st) (inv3b sc st')
   && all_addr sc (fun x =>
@@ -67,12 +68,19 @@ Definition ok_C03 (sc : scenario) (q : rec) : bool :=
               && connected sc (fst (a_tgt a)) (fst x))
        && implb (is_subnet_scan a && r_success r)
                 (Bool.eqb (h_disc (row sc st' x))
-                          (h_disc (row sc st x) || connected sc (fst (a_tgt a)) (fst x))))
-  && implb (is_subnet_scan a && r_success r)
+                          (h_disc (row sc st x) || connected sc (fst (a_tgt a)) (fst x)))).
+
+(* the result's discovered / newly-discovered lists of a successful subnet scan (they drive the
+   observation, C08; not demanded by C03 itself, so not part of the judge) *)
+Definition ok_C03_info (sc : scenario) (q : rec) : bool :=
+  let st := q_st q in let a := q_a q in let r := q_r q in
+  implb (is_subnet_scan a && r_success r)
        (list_eqb Bool.eqb (r_disc r) (map (fun x => connected sc (fst (a_tgt a)) (fst x)) (addresses sc))
         && list_eqb Bool.eqb (r_newly r)
              (map (fun x => connected sc (fst (a_tgt a)) (fst x) && negb (h_disc (row sc st x)))
                   (addresses sc))).
+
+Definition ok_C03 (sc : scenario) (q : rec) : bool := ok_C03_state sc q && ok_C03_info sc q.
 
 Definition same_configb (h h' : hrow) : bool :=
   addr_eqb (h_addr h') (h_addr h) && list_eqb Bool.eqb (h_os h') (h_os h)
@@ -119,4 +127,4 @@ Definition ok_C05_history (sc : scenario) (sts : list state) (values : list Z) :
      end.
 
 Definition judge_all (sc : scenario) (q : rec) : list bool :=
-  [ok_C01 sc q; ok_C02 sc q; ok_C03 sc q; ok_C04 sc q; ok_C05 sc q; ok_C06 sc q; ok_C07 sc q].
+  [ok_C01 sc q; ok_C02 sc q; ok_C03_state sc q; ok_C04 sc q; ok_C05 sc q; ok_C06 sc q; ok_C07 sc q].
